@@ -197,6 +197,19 @@ type runner struct {
 
 const maxHangs = 8
 
+// limiter keeps the violation records deterministic: at most one record per clause+features per SHARD (the engine's
+// own cap in Stats.Violate is per worker, and which worker takes which shard varies from run to run). Every
+// violating execution is still counted in the outcome histogram ("violation: <clause>").
+type limiter map[string]bool
+
+func (l limiter) record(st *mc.Stats, v *mc.Violation) {
+	k := v.Clause + "|" + strings.Join(v.Features, ",")
+	if !l[k] {
+		l[k] = true
+		st.Viol = append(st.Viol, v)
+	}
+}
+
 func (x *runner) isHung(cs []corr) bool {
 	x.hungMu.Lock()
 	defer x.hungMu.Unlock()
@@ -213,7 +226,7 @@ func (x *runner) isHung(cs []corr) bool {
 // feature "readerat-eof-with-full-read" marks violations that need that convention); it is always counted in the
 // histogram. It returns false when the shard should stop (a hang was just observed, or too many goroutines are
 // already spinning).
-func (x *runner) one(scen string, st *mc.Stats, b []byte, via, desc string) bool {
+func (x *runner) one(scen string, st *mc.Stats, lim limiter, b []byte, via, desc string) bool {
 	if via == "load" && atomic.LoadInt64(&hangs) >= maxHangs {
 		st.Class("load skipped: too many hung executions already")
 		return false
@@ -244,7 +257,7 @@ func (x *runner) one(scen string, st *mc.Stats, b []byte, via, desc string) bool
 				} else if clauses0[v.Clause] {
 					continue
 				}
-				st.Violate(v)
+				lim.record(st, v)
 			}
 		}
 		if conv == 1 && st.WantSample() && len(b) < 200 && len(b)%7 == 3 {
@@ -329,6 +342,7 @@ func Run(r *mc.Run) {
 	r.Scenario("load-size-single", map[string]interface{}{"bases": len(debB), "members": 3, "size_values": sizeVals, "readerat_conventions": 2,
 		"note": "a shard (= one size value) stops at its first hang; later scenarios skip that value"},
 		len(sizeVals), func(vi int, st *mc.Stats) bool {
+			lim := limiter{}
 			for _, b := range debB {
 				for m := range b.ms {
 					v := sizeVals[vi]
@@ -345,7 +359,7 @@ func Run(r *mc.Run) {
 					cs := []corr{{m, "size", v}}
 					bs := gen.ArmBuild(apply(b.ms, cs))
 					st.Transitions++
-					if !x.one("load-size-single", st, bs, "load", descOf(b, cs)) {
+					if !x.one("load-size-single", st, lim, bs, "load", descOf(b, cs)) {
 						x.hungMu.Lock()
 						x.hungSize[v] = true
 						x.hungMu.Unlock()
@@ -362,18 +376,34 @@ func Run(r *mc.Run) {
 	sort.Strings(hung)
 	r.Extra["load_size_values_that_hung"] = hung
 
+	// ---- ar level: every single column corruption on every base (run early so that the smallest witnesses are
+	// the first violation records) ----
+	r.Scenario("ar-columns-single", map[string]interface{}{"bases": len(allB), "columns": "name ts uid gid size magic per member", "readerat_conventions": 2},
+		len(allB), func(bi int, st *mc.Stats) bool {
+			lim := limiter{}
+			b := allB[bi]
+			for _, c := range singles(b.ms) {
+				st.Transitions++
+				x.one("ar-columns-single", st, lim, gen.ArmBuild(apply(b.ms, []corr{c})), "ar", descOf(b, []corr{c}))
+			}
+			return true
+		})
+
 	// ---- truncation at every offset (ar level; .deb bases through deb.Load too) ----
 	for _, b := range allB {
 		b := b
 		full := gen.ArmBuild(b.ms)
 		r.Scenario("truncate-"+b.name, map[string]interface{}{"base": b.name, "length": len(full), "cuts": "every prefix 0..len",
 			"via": "ar (both conventions)" + map[bool]string{true: " + deb.Load (both conventions)", false: ""}[b.deb]},
-			len(full)+1, func(cut int, st *mc.Stats) bool {
-				d := fmt.Sprintf("%s truncated to %d of %d", b.name, cut, len(full))
-				st.Transitions++
-				x.one("truncate-"+b.name, st, full[:cut], "ar", d)
-				if b.deb {
-					return x.one("truncate-"+b.name, st, full[:cut], "load", d)
+			(len(full)+1+63)/64, func(chunk int, st *mc.Stats) bool {
+				lim := limiter{}
+				for cut := chunk * 64; cut < (chunk+1)*64 && cut <= len(full); cut++ {
+					d := fmt.Sprintf("%s truncated to %d of %d", b.name, cut, len(full))
+					st.Transitions++
+					x.one("truncate-"+b.name, st, lim, full[:cut], "ar", d)
+					if b.deb && !x.one("truncate-"+b.name, st, lim, full[:cut], "load", d) {
+						return false
+					}
 				}
 				return true
 			})
@@ -383,12 +413,17 @@ func Run(r *mc.Run) {
 	for _, b := range allB[:3] { // ar2, ar3, deb-stored
 		b := b
 		all := singles(b.ms)
+		k := k
+		if !b.deb {
+			k++ // the small bases are cheap: one more column than the tier asks for
+		}
 		r.Scenario("ar-columns-"+b.name, map[string]interface{}{"base": b.name, "members": len(b.ms), "columns": "name ts uid gid size magic per member",
 			"single_corruptions": len(all), "max_columns_corrupted": k, "readerat_conventions": 2},
 			len(all), func(shard int, st *mc.Stats) bool {
+				lim := limiter{}
 				ok := true
 				supersets(all, shard, k, func(cs []corr) bool {
-					x.one("ar-columns-"+b.name, st, gen.ArmBuild(apply(b.ms, cs)), "ar", descOf(b, cs))
+					x.one("ar-columns-"+b.name, st, lim, gen.ArmBuild(apply(b.ms, cs)), "ar", descOf(b, cs))
 					st.Transitions++
 					if int64(len(cs)) > st.MaxDepth {
 						st.MaxDepth = int64(len(cs))
@@ -405,13 +440,14 @@ func Run(r *mc.Run) {
 	// ---- rearrangements ----
 	r.Scenario("rearrange", map[string]interface{}{"bases": len(allB), "what": "every duplication (i re-inserted at j), removal and permutation of members"},
 		len(allB), func(bi int, st *mc.Stats) bool {
+			lim := limiter{}
 			b := allB[bi]
 			as, ds := rearrangements(b.ms)
 			for i, a := range as {
 				bs := gen.ArmBuild(a)
 				st.Transitions++
-				x.one("rearrange", st, bs, "ar", b.name+" "+ds[i])
-				if b.deb && !x.one("rearrange", st, bs, "load", b.name+" "+ds[i]) {
+				x.one("rearrange", st, lim, bs, "ar", b.name+" "+ds[i])
+				if b.deb && !x.one("rearrange", st, lim, bs, "load", b.name+" "+ds[i]) {
 					return false
 				}
 			}
@@ -423,6 +459,7 @@ func Run(r *mc.Run) {
 	places := []string{"alone", "after magic", "before members", "after last member", "after member 0"}
 	r.Scenario("short-strings", map[string]interface{}{"alphabet": "! ` \\n 0 blank", "max_len": 3, "strings": len(strs), "placements": places, "bases": "ar2, deb-stored"},
 		len(strs), func(si int, st *mc.Stats) bool {
+			lim := limiter{}
 			s := []byte(strs[si])
 			ok := true
 			for _, b := range []base{arB[0], debB[0]} {
@@ -435,9 +472,9 @@ func Run(r *mc.Run) {
 				for pi, pl := range places {
 					d := fmt.Sprintf("%s %q %s", b.name, s, pl)
 					st.Transitions++
-					x.one("short-strings", st, inputs[pi], "ar", d)
+					x.one("short-strings", st, lim, inputs[pi], "ar", d)
 					if b.deb && ok {
-						ok = x.one("short-strings", st, inputs[pi], "load", d)
+						ok = x.one("short-strings", st, lim, inputs[pi], "load", d)
 					}
 				}
 			}
@@ -451,6 +488,7 @@ func Run(r *mc.Run) {
 		r.Scenario("load-columns-"+b.name, map[string]interface{}{"base": b.name, "members": 3, "single_corruptions": len(all), "max_columns_corrupted": k,
 			"readerat_conventions": 2, "skipped_size_values": hung},
 			len(all), func(shard int, st *mc.Stats) bool {
+				lim := limiter{}
 				complete := true
 				supersets(all, shard, k, func(cs []corr) bool {
 					if len(cs) == 1 && cs[0].Col == "size" {
@@ -465,7 +503,7 @@ func Run(r *mc.Run) {
 					if int64(len(cs)) > st.MaxDepth {
 						st.MaxDepth = int64(len(cs))
 					}
-					if !x.one("load-columns-"+b.name, st, gen.ArmBuild(apply(b.ms, cs)), "load", descOf(b, cs)) || r.Expired() {
+					if !x.one("load-columns-"+b.name, st, lim, gen.ArmBuild(apply(b.ms, cs)), "load", descOf(b, cs)) || r.Expired() {
 						complete = false
 						return false
 					}
@@ -480,6 +518,7 @@ func Run(r *mc.Run) {
 	binNames := []string{"debian-binary", "debian-binary/", "Debian-Binary", "debian-binar"}
 	r.Scenario("load-debian-binary", map[string]interface{}{"contents": binVals, "member_name": binNames, "bases": len(debB)},
 		len(binVals), func(vi int, st *mc.Stats) bool {
+			lim := limiter{}
 			for _, b := range debB {
 				for _, nm := range binNames {
 					ms := append([]gen.ArmMember(nil), b.ms...)
@@ -487,8 +526,8 @@ func Run(r *mc.Run) {
 					bs := gen.ArmBuild(ms)
 					d := fmt.Sprintf("%s %s=%q", b.name, nm, binVals[vi])
 					st.Transitions++
-					x.one("load-debian-binary", st, bs, "ar", d)
-					if !x.one("load-debian-binary", st, bs, "load", d) {
+					x.one("load-debian-binary", st, lim, bs, "ar", d)
+					if !x.one("load-debian-binary", st, lim, bs, "load", d) {
 						return false
 					}
 				}
